@@ -75,9 +75,16 @@ class ASTStatementRewriter(ASTIdentityMapper):
 
 def apply_statement_rewriter(rewriter_cls, phase_ast):
     statements = list(get_statements_in_ast(phase_ast))
+    var_name_gen = get_var_name_generator(statements)
+
+    # Loop variables are in use, too, even if no statement reads them.
+    from dagrt.codegen.dag_ast import LoopVariableFinder
+    var_name_gen.add_names(
+            LoopVariableFinder()(phase_ast), conflicting_ok=True)
+
     rewriter = rewriter_cls(
             stmt_id_gen=get_stmt_id_generator(statements),
-            var_name_gen=get_var_name_generator(statements))
+            var_name_gen=var_name_gen)
 
     return rewriter(phase_ast)
 
